@@ -15,7 +15,7 @@ ROOT = os.path.dirname(os.path.dirname(os.path.abspath(__file__)))
 
 from . import findings, mirror                      # noqa: E402
 from .chooser import derive_seed                    # noqa: E402
-from .core import run_case                          # noqa: E402
+from .core import run_case as _run_case_plain, run_case_isolated   # noqa: E402
 from .shrink import shrink                          # noqa: E402
 
 PROPS = ['C01', 'C03', 'C04', 'C05', 'C07', 'C12', 'C13', 'C14', 'C16', 'C17',
@@ -29,6 +29,14 @@ def load_prop(prop):
     if prop not in _MOD:
         _MOD[prop] = importlib.import_module('props.' + prop.lower())
     return _MOD[prop]
+
+
+def run_case(mod, **kw):
+    """Properties whose realistic breakage can hide in module-level state of the
+    code under test set ISOLATE = True: each run then executes in a forked child."""
+    if getattr(mod, 'ISOLATE', False):
+        return run_case_isolated(mod, **kw)
+    return _run_case_plain(mod, **kw)
 
 
 def _h(*parts):
@@ -366,13 +374,14 @@ def main(argv=None):
         choices = item['choices']
         if not args.no_shrink:
             def runner_fn(c):
-                return run_case(mod, replay=c, tier=tier)
+                # isolated: the parent process stays pristine while shrinking
+                return run_case_isolated(mod, replay=c, tier=tier)
             choices, res, nruns = shrink(runner_fn, choices, v['oracle'], v['sig'],
                                          max_runs=1500, max_seconds=30.0)
         else:
-            res = run_case(mod, replay=choices, tier=tier)
+            res = run_case_isolated(mod, replay=choices, tier=tier)
             nruns = 1
-        full = run_case(mod, replay=choices, tier=tier, keep_labels=True)
+        full = run_case_isolated(mod, replay=choices, tier=tier, keep_labels=True)
         vv = [x for x in full['verdicts'] if x['oracle'] == v['oracle'] and x['sig'] == v['sig']]
         if not vv:
             print('HARNESS-ERROR nondeterminism: violation %s did not replay in-process' % v['oracle'])
